@@ -54,6 +54,8 @@ var timeVals = []time.Time{
 	time.Date(1969, 12, 31, 23, 59, 59, 500000000, time.UTC), time.Date(2020, 2, 29, 12, 0, 0, 0, time.FixedZone("x", 3600)),
 	time.Date(2024, 6, 1, 1, 2, 3, 4000, time.FixedZone("", -7*3600)), time.Date(1600, 1, 1, 0, 0, 0, 0, time.UTC), time.Date(2262, 4, 11, 23, 47, 16, 854775807, time.UTC),
 	time.Date(2500, 1, 1, 0, 0, 0, 0, time.UTC), time.Date(-100, 1, 1, 0, 0, 0, 0, time.UTC), time.Date(12000, 1, 1, 0, 0, 0, 0, time.UTC),
+	// the zero instant carrying a location: IsZero() is true, == time.Time{} is false
+	time.Time{}.In(time.FixedZone("z", 5*3600)), time.Time{}.Local(), time.Unix(-62135596800, 0), time.Unix(-62135596800, 1).In(time.FixedZone("", -3600)),
 }
 
 func (g *VG) spend(n int) bool {
